@@ -307,7 +307,7 @@ def parse_model(line):
 def all_known():
     """recorded findings: known-findings.json, plus this package's proposed entries until they are merged there"""
     known = {k["id"]: k for k in vlib.load_known("C04")}
-    p = os.path.join(vlib.VERIF, "notes", "C04.findings.json")
+    p = ""      # only the committed known-findings.json is consulted at run time
     if os.path.exists(p):
         for k in json.load(open(p)):
             if k.get("property") == "C04" and k.get("status") == "known":
